@@ -1371,21 +1371,27 @@ matrix_set_size(matrix *self, PyObject *value, void *closure)
 
       PY_ERR_INT(PyExc_TypeError, "invalid size tuple");
 
-  int m = PyLong_AS_LONG(PyTuple_GET_ITEM(value, 0));
-  int n = PyLong_AS_LONG(PyTuple_GET_ITEM(value, 1));
+  int_t m = PyLong_AsSsize_t(PyTuple_GET_ITEM(value, 0));
+  int_t n = PyLong_AsSsize_t(PyTuple_GET_ITEM(value, 1));
+  if ((m == -1 || n == -1) && PyErr_Occurred()) {
+    PyErr_Clear();
+    PY_ERR_INT(PyExc_TypeError, "number of elements in matrix cannot change");
+  }
 #else
   if (!PyInt_Check(PyTuple_GET_ITEM(value, 0)) ||
       !PyInt_Check(PyTuple_GET_ITEM(value, 1)))
       PY_ERR_INT(PyExc_TypeError, "invalid size tuple");
 
-  int m = PyInt_AS_LONG(PyTuple_GET_ITEM(value, 0));
-  int n = PyInt_AS_LONG(PyTuple_GET_ITEM(value, 1));
+  int_t m = PyInt_AS_LONG(PyTuple_GET_ITEM(value, 0));
+  int_t n = PyInt_AS_LONG(PyTuple_GET_ITEM(value, 1));
 #endif
 
   if (m<0 || n<0)
     PY_ERR_INT(PyExc_TypeError, "dimensions must be non-negative");
 
-  if (m*n != MAT_LGT(self))
+  /* the product is compared without being formed: it may not fit */
+  if ((n == 0 || m == 0) ? (MAT_LGT(self) != 0) :
+      (MAT_LGT(self) % n != 0 || MAT_LGT(self) / n != m))
     PY_ERR_INT(PyExc_TypeError, "number of elements in matrix cannot change");
 
   MAT_NROWS(self) = m;
